@@ -26,6 +26,7 @@ class SendHooks(QHooks):
     tracked = frozenset(['G:tododir', 'G:flagexitasap', 'G:dline', 'G:todoline', 'G:flagcleanup'])
     precise = frozenset(['L:c'])
     unit = 'qmail-send.c'
+    heap_tables = (r'^G:jo$', r'^G:d\[\d\]$')      # the job table and the two delivery-slot tables
 
     def __init__(self):
         self.sites = {}
@@ -971,12 +972,13 @@ def analyse_del_start(db, rep):
 
 # =============================================================================== pass_dochan
 class PassHooks(SendHooks):
-    tracked = frozenset(['G:pass', 'G:flagexitasap'])
+    tracked = frozenset(['G:pass', 'G:flagexitasap', 'G:jo'])
 
-    def __init__(self, c):
+    def __init__(self, c, free_mpos=False):
         super().__init__()
         self.c = c
         self.ends = []
+        self.free_mpos = free_mpos       # leave the mark offset of a closed pass undetermined (the invariant runs set it themselves)
 
     def prim_job_avail(self, E, x, args):
         return [Outcome(ret=fs(0)), Outcome(ret=fs(1))]
@@ -1014,10 +1016,28 @@ class PassHooks(SendHooks):
     def prim_getinfo(self, E, x, args):
         return [Outcome(ret=fs(0)), Outcome(ret=fs(1))]
 
+    JOB = 1
+    NUMTODO0 = 5
+    MPOS0 = 4000
+    RECLEN = 17
+
+    def precise_arith(self, path):
+        return True
+
+    def materialize(self, E, path):
+        c = self.c
+        if path == 'G:pass[%d].j' % c:
+            return fs(self.JOB)
+        if path == 'G:pass[%d].mpos' % c and not self.free_mpos:
+            return fs(self.MPOS0)           # a pass that is already open has marked its way to some offset
+        if path == 'G:jo[%d].numtodo' % self.JOB:
+            return fs(self.NUMTODO0)
+        return TOP
+
     def prim_job_open(self, E, x, args):
         self.count('job_open')
         E.set('$owner', fs('job'))
-        return [Outcome(ret=TOP, log='job_open')]
+        return [Outcome(ret=fs(self.JOB), log='job_open')]
 
     def prim_nextretry(self, E, x, args):
         return [Outcome(ret=TOP)]
@@ -1049,31 +1069,39 @@ class PassHooks(SendHooks):
                 lp = a[1]
         if mp is None or lp is None:
             raise AnalysisBroken('pass_dochan: getln shape changed')
-        outs = [Outcome(ret=fs(-1), sets={'$rec': fs('ioerr')}, log='getln fails'),
-                Outcome(ret=fs(0), sets={mp: fs(0), '$rec': fs('eof')}, log='channel file: end')]
+        at = E.get('G:pass[%d].mpos' % self.c)
+        if at is None or at is TOP:
+            at = self.materialize(E, 'G:pass[%d].mpos' % self.c)
+        nt = E.get('G:jo[%d].numtodo' % self.JOB)
+        common = {'$mpget': at, '$nt0': nt if nt not in (None, TOP) else fs(self.NUMTODO0)}
+        outs = [Outcome(ret=fs(-1), sets=dict(common, **{'$rec': fs('ioerr')}), log='getln fails'),
+                Outcome(ret=fs(0), sets=dict(common, **{mp: fs(0), lp + '.len': fs(0), '$rec': fs('eof')}), log='channel file: end')]
         for name, vals in (('T', fs(ord('T'))), ('D', fs(ord('D'))), ('other', BYTE - {ord('T'), ord('D')})):
-            outs.append(Outcome(ret=fs(0), sets={mp: fs(1), lp + '.s[0]': vals, '$rec': fs(name)}, log='channel record %s' % name))
+            outs.append(Outcome(ret=fs(0), sets=dict(common, **{mp: fs(1), lp + '.s[0]': vals, lp + '.len': fs(self.RECLEN), '$rec': fs(name)}), log='channel record %s (%d bytes)' % (name, self.RECLEN)))
         return outs
 
     def trackable_extra(self, path):
         return False
 
     def on_assign(self, E, x, path, val):
-        if path.endswith('.numtodo'):
-            E.set('$inc', fs(min(g1(E, '$inc', 0) + 1, 2)))
-        if path == 'G:pass[%d].mpos' % self.c:
-            if x.k == 'asg' and x.op == '+=':
-                self.site('pass:mpos-advances-by-the-record-length', x, x.args[1].src().endswith('line.len'), 'mpos advanced by %s' % x.args[1].src(), E)
-                E.set('$adv', fs(min(g1(E, '$adv', 0) + 1, 2)))
-        if path.endswith('.flaghiteof') and val == fs(1):
+        if path and path.endswith('.flaghiteof') and val == fs(1):
             E.set('$hiteof', fs(1))
+
+    def _inc(self, E):
+        a, b = g1(E, 'G:jo[%d].numtodo' % self.JOB, self.NUMTODO0), g1(E, '$nt0', self.NUMTODO0)
+        return a - b if isinstance(a, int) and isinstance(b, int) else None
+
+    def _adv(self, E):
+        a, b = g1(E, 'G:pass[%d].mpos' % self.c), g1(E, '$mpget')
+        return a - b if isinstance(a, int) and isinstance(b, int) else None
 
     def prim_del_start(self, E, x, args):
         self.count('del_start')
         self.site('pass:delivery-only-for-T-records', x, g1(E, '$rec') == 'T', 'del_start() for a %s record: a finished recipient would be delivered again' % g1(E, '$rec'), E)
-        self.site('pass:numtodo-counted-before-del_start', x, g1(E, '$inc', 0) == 1, 'del_start() with numtodo incremented %d time(s) before it' % g1(E, '$inc', 0), E)
-        self.site('pass:mark-position-is-the-start-of-this-record', x, x.args[1].src() == 'pass[c].mpos' and g1(E, '$adv', 0) == 0,
-                  'del_start() receives %s after %d advance(s): the D mark would hit another record' % (x.args[1].src(), g1(E, '$adv', 0)), E)
+        self.site('pass:numtodo-counted-before-del_start', x, self._inc(E) == 1, 'del_start() with numtodo incremented %s time(s) before it' % self._inc(E), E)
+        mp, at = g1v(args[1]), g1(E, '$mpget')
+        self.site('pass:mark-position-is-the-start-of-this-record', x, isinstance(mp, int) and mp == at,
+                  'del_start() receives the mark position %s for a record that starts at offset %s: the D mark would hit another record' % (mp, at), E)
         E.set('$started', fs(min(g1(E, '$started', 0) + 1, 2)))
         return [Outcome(ret=TOP, log='del_start')]
 
@@ -1095,12 +1123,17 @@ class PassHooks(SendHooks):
             self.site('pass:removed-entry-is-handed-to-a-job-or-reinserted', None, ok,
                       'an entry taken off %s is neither owned by a job nor re-inserted: the message would never be tried again' % taken, E)
         rec = g1(E, '$rec')
+        if fn.name != 'pass_dochan':
+            return
         if rec == 'T':
-            self.site('pass:T-record-starts-one-delivery-attempt', None, g1(E, '$started', 0) == 1 and g1(E, '$inc', 0) == 1, 'T record: %d del_start, %d numtodo increments' % (g1(E, '$started', 0), g1(E, '$inc', 0)), E)
+            self.site('pass:T-record-starts-one-delivery-attempt', None, g1(E, '$started', 0) == 1 and self._inc(E) == 1, 'T record: %d del_start, %s numtodo increments' % (g1(E, '$started', 0), self._inc(E)), E)
         if rec in ('T', 'D'):
-            self.site('pass:mpos-advances-exactly-once-per-record', None, g1(E, '$adv', 0) == 1, '%s record: mpos advanced %d time(s)' % (rec, g1(E, '$adv', 0)), E)
+            self.site('pass:mpos-advances-exactly-once-per-record', None, self._adv(E) not in (0, None) and self._adv(E) <= self.RECLEN,
+                      '%s record of %d bytes at offset %s: the mark offset ends at %s' % (rec, self.RECLEN, g1(E, '$mpget'), g1(E, 'G:pass[%d].mpos' % self.c)), E)
+            self.site('pass:mpos-advances-by-the-record-length', None, self._adv(E) == self.RECLEN,
+                      '%s record of %d bytes at offset %s: the mark offset ends at %s' % (rec, self.RECLEN, g1(E, '$mpget'), g1(E, 'G:pass[%d].mpos' % self.c)), E)
         if rec == 'D':
-            self.site('pass:D-record-has-no-effect', None, g1(E, '$started', 0) == 0 and g1(E, '$inc', 0) == 0 and g1(E, '$closed', 0) == 0, 'D record triggers an action', E)
+            self.site('pass:D-record-has-no-effect', None, g1(E, '$started', 0) == 0 and self._inc(E) == 0 and g1(E, '$closed', 0) == 0, 'D record triggers an action', E)
         if rec in ('other', 'ioerr', 'eof'):
             self.site('pass:pass-ends-with-job_close', None, g1(E, '$closed', 0) == 1 and g1(E, '$started', 0) == 0, 'pass ended (%s) without job_close or with a delivery' % rec, E)
         if rec == 'eof':
@@ -1116,7 +1149,7 @@ def analyse_pass_dochan(db, rep):
     for c in (0, 1):
         H = PassHooks(c)
         eng = Engine(db, prog, H)
-        eng.run(fn, {'pass_dochan::P:c': fs(c)})
+        eng.run(fn, {'%s::%s' % (eng.frame_id(fn), fn.params[0]): fs(c)})
         rep.count_states(eng.states, eng.transitions)
         for k, v in H.sites.items():
             if k not in sites or (sites[k][0] and not v[0]):
@@ -1134,12 +1167,12 @@ def analyse_pass_dochan(db, rep):
         for c in (0, 1):
             for preset in ({'G:pass[%d].id' % c: fs(0)}, {'G:pass[%d].id' % c: fs(5)}):
                 st = dict(preset)
-                st['pass_dochan::P:c'] = fs(c)
                 if assume_inv and preset['G:pass[%d].id' % c] == fs(0):
                     st['G:pass[%d].mpos' % c] = fs(0)
-                H = PassHooks(c)
+                H = PassHooks(c, free_mpos=True)
                 H.site = lambda *a, **k: None
                 eng = Engine(db, prog, H)
+                st['%s::%s' % (eng.frame_id(fn), fn.params[0])] = fs(c)
                 eng.run(fn, st)
                 rep.count_states(eng.states, eng.transitions)
                 for started, idv, mp, mp_start, tr in H.ends:
@@ -1158,9 +1191,8 @@ def analyse_pass_dochan(db, rep):
     else:
         n2, bs2, bi2 = starts(True)
         pi = prog.fn('pass_init', 'qmail-send.c')
-        H = PassHooks(0)
+        H = PassHooks(0, free_mpos=True)
         H.site = lambda *a, **k: None
-        H.precise = frozenset(['L:c', 'L:i', 'L:j'])
         eng = Engine(db, prog, H)
         fin = []
         H.on_return = lambda E, f, v: fin.append([E.get('G:pass[%d].mpos' % c_) for c_ in (0, 1)]) if f.name == 'pass_init' else None
@@ -1243,7 +1275,7 @@ def analyse_pass_start(db, rep):
         for recent in (1050, 1100, 1101, 5000):
             H = PassStartHooks(c)
             eng = Engine(db, prog, H)
-            eng.run(fn, {'pass_dochan::P:c': fs(c), 'G:pass[%d].id' % c: fs(0), 'G:flagexitasap': fs(0), 'G:recent': fs(recent), 'G:lifetime': fs(100)})
+            eng.run(fn, {'%s::%s' % (eng.frame_id(fn), fn.params[0]): fs(c), 'G:pass[%d].id' % c: fs(0), 'G:flagexitasap': fs(0), 'G:recent': fs(recent), 'G:lifetime': fs(100)})
             rep.count_states(eng.states, eng.transitions)
             for rc, retry, dying, jargs, tr in H.rows:
                 n += 1
